@@ -64,7 +64,7 @@ ASSUMPTIONS = [
     'the window is compared with the source through the same decoder',
     'sum of a multiple of 1/8 below 2**22 and up to 5 cell sizes below 2**17 '
     'is exact in float64']
-BUDGET = {'quick': dict(examples=4800, max_s=240),
+BUDGET = {'quick': dict(examples=7200, max_s=240),
           'thorough': dict(examples=40000, max_s=3000)}
 
 
